@@ -31,7 +31,8 @@ class P(vlib.Prop):
                   "conditions on the fields and the token limits read from the source (index and installed db), so the round-trip theorems exist with hypotheses on fields only; "
                   "the fuel of the validator's reachability test is enough for every truly reachable entry; the readers' switch tables (case letters, assigned fields, line guards) "
                   "are pinned to the source and letters outside them are ignored, repeated fields overwrite (except an un-prefixed C:), passwd/group lines with a wrong number of "
-                  "colons are errors, and a passwd/group reader that succeeds returns exactly one entry per line of any text (unterminated last line included); every validator (index, installed, installed-fixpoint, sort, passwd, group) decides its readable Prop. The model's writers are interpreted "
+                  "colons are errors; a database of SEVERAL records (AddInstalledPackage for each in turn, Model.write_db) is read back record for record, each as if alone, and "
+                  "written again it is the old file minus the Z: lines and with other i: lines (c16_installed_db_roundtrip / _fixpoint); a passwd/group reader that succeeds returns exactly one entry per line of any text (unterminated last line included); every validator (index, installed, installed-fixpoint, sort, passwd, group) decides its readable Prop. The model's writers are interpreted "
                   "from the template rows / fmt formats / separators / scanner limits that goextract reads from the source on every run; the model is tied to the code by "
                   "differential comparison of written bytes, sorted header lists and read structures, and the verified validators are run on the implementation's own outputs.")
     level_note = ("trusted: Coq kernel, goextract, Go harness/printer; modelled not verified: Go text of the readers' control flow, text/template, fmt, bufio.Scanner, path/filepath "
